@@ -739,24 +739,85 @@ enum SessionRequest {
     },
 }
 
+/// The interrupt flag of a session, together with the bookkeeping
+/// that decides when it may be raised and when it is lowered.
+///
+/// The evaluator polls `flag` on every step and clears it when it
+/// sees it. Only the connection's reader thread knows whether the
+/// session has work in flight, so the flag is raised only while
+/// `pending` is non-zero and lowered by the worker when `pending`
+/// drops back to zero. That way an interrupt is never lost because
+/// the worker had not picked up the request yet (it may still be
+/// building its `Env`), and an interrupt that arrives too late for
+/// one request never leaks into a request sent afterwards.
+struct SessionInterrupt {
+    flag: Arc<AtomicBool>,
+    /// Number of requests handed to the worker that it has not
+    /// finished yet. `flag` is only written with this lock held
+    /// (except by the evaluator, which clears it when it stops, and
+    /// when the session is shut down).
+    pending: Mutex<usize>,
+}
+
+impl SessionInterrupt {
+    fn new() -> Self {
+        Self {
+            flag: Arc::new(AtomicBool::new(false)),
+            pending: Mutex::new(0),
+        }
+    }
+
+    /// Interrupt whatever the session is running or has queued. Does
+    /// nothing when the session is idle.
+    fn interrupt(&self) {
+        let pending = self.pending.lock().unwrap();
+        if *pending > 0 {
+            self.flag.store(true, Ordering::SeqCst);
+        }
+    }
+
+    /// Called by the worker once it has sent the last response of a
+    /// request. An interrupt that arrived too late to stop anything
+    /// must not hit the next request.
+    fn finish_request(&self) {
+        let mut pending = self.pending.lock().unwrap();
+        *pending = pending.saturating_sub(1);
+        if *pending == 0 {
+            self.flag.store(false, Ordering::SeqCst);
+        }
+    }
+}
+
 /// State for one logical nREPL session.
 struct SessionState {
     request_tx: Sender<SessionRequest>,
-    interrupted: Arc<AtomicBool>,
+    interrupt: Arc<SessionInterrupt>,
     /// Set once the session has been closed (or its connection has
-    /// gone away). The worker clears `interrupted` whenever it picks
-    /// up a request, so without this a request that was still queued
-    /// when the session was closed would run with nothing left to
-    /// stop it.
+    /// gone away). The eval that was running consumes the interrupt
+    /// flag when it stops, so without this a request that was still
+    /// queued when the session was closed would run with nothing
+    /// left to stop it.
     closed: Arc<AtomicBool>,
 }
 
 impl SessionState {
+    /// Hand `req` to the worker. Returns false if the worker is gone.
+    fn enqueue(&self, req: SessionRequest) -> bool {
+        // Holding the lock across the send keeps the worker from
+        // finishing the request before it has been counted.
+        let mut pending = self.interrupt.pending.lock().unwrap();
+        if self.request_tx.send(req).is_err() {
+            return false;
+        }
+        *pending += 1;
+        true
+    }
+
     /// Stop the running eval and make sure that every request still
     /// queued for this session is interrupted as soon as it starts.
     fn shut_down(&self) {
-        // `closed` must be set first: the worker reads it after
-        // clearing `interrupted`.
+        // `closed` must be set first: a worker that picks up a
+        // request and does not see `closed` must see the flag.
         #[cfg(wilfred_garden_verif)]
         let mut verif_guard = verif::lock();
         self.closed.store(true, Ordering::SeqCst);
@@ -767,7 +828,7 @@ impl SessionState {
         }
         #[cfg(wilfred_garden_verif)]
         let mut verif_guard = verif::lock();
-        self.interrupted.store(true, Ordering::SeqCst);
+        self.interrupt.flag.store(true, Ordering::SeqCst);
         #[cfg(wilfred_garden_verif)]
         verif::ev(&mut verif_guard, "rd flag");
     }
@@ -783,7 +844,7 @@ struct Connection {
     /// Shared list of session interrupt flags, used by the SIGINT
     /// watchdog to broadcast a global interrupt to every active
     /// session.
-    interrupt_flags: Arc<Mutex<Vec<Weak<AtomicBool>>>>,
+    interrupt_flags: Arc<Mutex<Vec<Weak<SessionInterrupt>>>>,
     /// On-disk copies of the built-in Garden files, shared across all
     /// sessions of this connection so `lookup` responses can point at
     /// real files for built-in symbols.
@@ -811,16 +872,16 @@ impl Connection {
     fn new_session(&mut self) -> String {
         let id = next_session_id(&mut self.next_id);
         let (request_tx, request_rx) = mpsc::channel();
-        let interrupted = Arc::new(AtomicBool::new(false));
+        let interrupt = Arc::new(SessionInterrupt::new());
         let closed = Arc::new(AtomicBool::new(false));
 
         self.interrupt_flags
             .lock()
             .unwrap()
-            .push(Arc::downgrade(&interrupted));
+            .push(Arc::downgrade(&interrupt));
 
         let response_tx = self.response_tx.clone();
-        let worker_interrupted = Arc::clone(&interrupted);
+        let worker_interrupt = Arc::clone(&interrupt);
         let worker_closed = Arc::clone(&closed);
         let temp_built_in_files = Arc::clone(&self.temp_built_in_files);
         let thread_name = format!("nrepl-session-{id}");
@@ -831,7 +892,7 @@ impl Connection {
                 session_worker(
                     request_rx,
                     response_tx,
-                    worker_interrupted,
+                    worker_interrupt,
                     worker_closed,
                     temp_built_in_files,
                 )
@@ -842,7 +903,7 @@ impl Connection {
             id.clone(),
             SessionState {
                 request_tx,
-                interrupted,
+                interrupt,
                 closed,
             },
         );
@@ -896,10 +957,7 @@ fn dispatch_to_session(
     };
 
     let req = build_request(base.clone());
-    // Logged just before the send: only the worker's dequeue observes it.
-    #[cfg(wilfred_garden_verif)]
-    verif::ev1("rd enq");
-    if session.request_tx.send(req).is_err() {
+    if !session.enqueue(req) {
         let mut msg = base;
         msg.insert(
             b"status".to_vec(),
@@ -915,7 +973,7 @@ fn dispatch_to_session(
 /// Ctrl-C triggers exactly one round of interrupts.
 fn sigint_watchdog(
     global_interrupted: Arc<AtomicBool>,
-    interrupt_flags: Weak<Mutex<Vec<Weak<AtomicBool>>>>,
+    interrupt_flags: Weak<Mutex<Vec<Weak<SessionInterrupt>>>>,
 ) {
     loop {
         thread::sleep(Duration::from_millis(100));
@@ -925,8 +983,8 @@ fn sigint_watchdog(
         if global_interrupted.swap(false, Ordering::SeqCst) {
             let mut guard = flags.lock().unwrap();
             guard.retain(|w| match w.upgrade() {
-                Some(arc) => {
-                    arc.store(true, Ordering::SeqCst);
+                Some(session) => {
+                    session.interrupt();
                     true
                 }
                 None => false,
@@ -940,7 +998,7 @@ fn sigint_watchdog(
 fn session_worker(
     request_rx: Receiver<SessionRequest>,
     response_tx: Sender<Value>,
-    interrupted: Arc<AtomicBool>,
+    interrupt: Arc<SessionInterrupt>,
     closed: Arc<AtomicBool>,
     temp_built_in_files: Arc<Option<TempBuiltInFiles>>,
 ) {
@@ -953,23 +1011,17 @@ fn session_worker(
     while let Ok(req) = request_rx.recv() {
         #[cfg(wilfred_garden_verif)]
         verif::ev1(&format!("w {} deq", verif::sid()));
-        // Clear any stray interrupt set while the session was idle.
-        #[cfg(wilfred_garden_verif)]
-        let mut verif_guard = verif::lock();
-        interrupted.store(false, Ordering::SeqCst);
-        #[cfg(wilfred_garden_verif)]
-        {
-            verif::ev(&mut verif_guard, &format!("w {} reset", verif::sid()));
-            drop(verif_guard);
-        }
-        // ...but a closed session must not run anything to completion:
-        // re-raise the flag so this request stops at its first step.
+        // An interrupt that arrived while this request was queued is
+        // still pending: the flag is not cleared here. A closed session
+        // must not run anything to completion: the eval that was running
+        // consumed the flag, so raise it again and this request stops at
+        // its first step.
         #[cfg(wilfred_garden_verif)]
         let mut verif_guard = verif::lock();
         #[cfg(wilfred_garden_verif)]
         verif::ev(&mut verif_guard, &format!("w {} ldc", verif::sid()));
         if closed.load(Ordering::SeqCst) {
-            interrupted.store(true, Ordering::SeqCst);
+            interrupt.flag.store(true, Ordering::SeqCst);
             #[cfg(wilfred_garden_verif)]
             verif::ev(&mut verif_guard, &format!("w {} reflag", verif::sid()));
         }
@@ -979,7 +1031,7 @@ fn session_worker(
         let stdout_buf = Arc::new(Mutex::new(String::new()));
         let stderr_buf = Arc::new(Mutex::new(String::new()));
         let session = Session {
-            interrupted: Arc::clone(&interrupted),
+            interrupted: Arc::clone(&interrupt.flag),
             stdout_stderr_mode: StdoutStderrMode::WriteToNReplBuffers {
                 stdout_buf: Arc::clone(&stdout_buf),
                 stderr_buf: Arc::clone(&stderr_buf),
@@ -1050,6 +1102,7 @@ fn session_worker(
                 return;
             }
         }
+        interrupt.finish_request();
     }
     #[cfg(wilfred_garden_verif)]
     verif::ev1(&format!("w {} exit", verif::sid()));
@@ -1363,14 +1416,7 @@ fn handle_message(conn: &mut Connection, request: &HashMap<Vec<u8>, Value>) {
             let session_id = dict_get(request, "session").and_then(as_str);
             match session_id.and_then(|s| conn.sessions.get(s)) {
                 Some(s) => {
-                    #[cfg(wilfred_garden_verif)]
-                    let mut verif_guard = verif::lock();
-                    s.interrupted.store(true, Ordering::SeqCst);
-                    #[cfg(wilfred_garden_verif)]
-                    {
-                        verif::ev(&mut verif_guard, "rd flag");
-                        drop(verif_guard);
-                    }
+                    s.interrupt.interrupt();
                     let mut msg = base;
                     msg.insert(b"status".to_vec(), Value::List(vec![bstr("done")]));
                     conn.send(Value::Dict(msg));
